@@ -1,15 +1,24 @@
 ----------------------------- MODULE FiltersMC -----------------------------
 EXTENDS Filters, Json
+CONSTANT EmitMinInDo   \* the generator emits behaviours with at least this many clock steps inside a Do
 \* The history is a generator/bounding device only; the exhaustive
 \* configurations identify states that agree on everything the property
 \* section reads (filter state, ghosts, number and kind of the last event).
 LastT == IF hist = << >> THEN "-" ELSE Last(hist).t
-View == <<lvars, nvars, Len(hist), LastT>>
+InDoSoFar == IF Which = "ntimed" THEN InDoCount ELSE 0
+View == <<lvars, nvars, Len(hist), LastT, InDoSoFar>>
 
 \* Behaviour emitter (spec -> code): every maximal history, with the
 \* specification's outputs / branches, replayed on the real filters.
-Emit == (Len(hist) = MaxEv) =>
-  PrintT(<<"CASE", ToJson([m |-> Which, cap |-> cap, k |-> kcfg, clk0 |-> clk - Cardinality({i \in DOMAIN hist : hist[i].t = "e"}), ev |-> hist])>>)
+\* (the schedule "a clock step lands after the k-th Epoch() read of the j-th
+\* Do" is the field st of the j-th event)
+NSteps == IF Which = "ntimed" THEN Cardinality({i \in DOMAIN hist : hist[i].t = "e"}) + InDoCount ELSE 0
+Emit == (Len(hist) = MaxEv /\ pc = "idle" /\ (Which = "ntimed" => InDoCount >= EmitMinInDo)) =>
+  PrintT(<<"CASE", ToJson([m |-> Which, cap |-> cap, k |-> kcfg, clk0 |-> clk - NSteps, ev |-> hist])>>)
+
+\* sample classes <<failLo, failHi>>
+ClassesAll == BOOLEAN \X BOOLEAN
+Classes3   == {<<FALSE, FALSE>>, <<TRUE, FALSE>>, <<FALSE, TRUE>>}
 
 \* value sets (cfg files cannot contain negative numbers); odd and even
 \* differences, so that the truncating `/ 2` of the even-sized median shows
